@@ -46,3 +46,69 @@ package golang
 //@   modifies cu.packagePrefix, cu.features, cu.namingStyle, cu.doInitialisms, cu.useTemplate, contents(cu.importReplace)
 //@   loop 1.1 invariant forall k int :: 0 <= k && k < $i ==> !prefixof(allParams[k].name, name)
 //@   site call:p.action assert forall k int :: 0 <= k && k < $i@1.1 ==> !prefixof(allParams[k].name, name)
+
+// ---- constant / default value kinds (C04): a value of a kind the declared scalar type cannot hold is an error ----
+// cvOK: what the parser and the semantic pass hand over: typed values are present, identifiers other than true/false are
+// bound (property C05).
+//@ pure func cvId(v *parser.ConstValue) string { return ite(v.TypedValue.Identifier != nil, *v.TypedValue.Identifier, "") }
+//@ pure func cvOK(v *parser.ConstValue) bool { return v != nil && (v.Type != parser.ConstType_ConstIdentifier || v.TypedValue != nil) && (v.Type != parser.ConstType_ConstInt || v.TypedValue != nil) && (v.Type != parser.ConstType_ConstDouble || v.TypedValue != nil) && (v.Type != parser.ConstType_ConstLiteral || v.TypedValue != nil) && (v.Type == parser.ConstType_ConstIdentifier && cvId(v) != "true" && cvId(v) != "false" ==> v.Extra != nil) }
+
+// getIDValue: total on a well-formed scope tree for every binding, also a missing one.
+//@ pure func scopeOK1(g *Scope) bool { return g.ast != nil && g.globals != nil && g.imports != nil && (forall i int :: 0 <= i && i < len(g.includes) ==> g.includes[i] != nil && g.includes[i].Scope != nil) && (forall i int :: 0 <= i && i < len(g.ast.Enums) ==> g.ast.Enums[i] != nil) }
+//@ pure func resOK(r *Resolver, g *Scope, v *parser.ConstValue) bool { return r != nil && r.util != nil && r.root != nil && g != nil && scopesOK() && (v.Extra != nil && v.Extra.Index != -1 ==> 0 <= v.Extra.Index && v.Extra.Index < len(g.includes)) }
+//@ pure func scopesOK() bool { return forall g *Scope :: g != nil ==> scopeOK1(g) }
+//@ func (r *Resolver) getIDValue(g *Scope, extra *parser.ConstValueExtra) (v string, ok bool)
+//@   requires r != nil && r.util != nil && r.root != nil && g != nil && scopesOK()
+//@   requires extra != nil && extra.Index != -1 ==> 0 <= extra.Index && extra.Index < len(g.includes)
+//@   ensures extra == nil ==> !ok
+//@ func (s *Scope) Enum(name string) *Enum
+//@   trusted
+//@ func (e *Enum) Value(name string) *EnumValue
+//@   trusted
+//@ func (cu *CodeUtils) Import(t *parser.Thrift) (pkg, pth string)
+//@   trusted
+//@ func (s *Scope) includeIDL(cu *CodeUtils, t *parser.Thrift) (pkgName string)
+//@   trusted
+//@ func (r *Resolver) getTypeName(g *Scope, t *parser.Type) (name string, err error)
+//@   trusted
+
+//@ func (r *Resolver) onBool(g *Scope, name string, t *parser.Type, v *parser.ConstValue) (string, error)
+//@   requires t != nil && cvOK(v) && resOK(r, g, v)
+//@   ensures result1 == nil ==> v.Type == parser.ConstType_ConstInt || v.Type == parser.ConstType_ConstDouble || v.Type == parser.ConstType_ConstIdentifier
+
+//@ func (r *Resolver) onInt(g *Scope, name string, t *parser.Type, v *parser.ConstValue) (string, error)
+//@   requires t != nil && cvOK(v) && resOK(r, g, v)
+//@   ensures result1 == nil ==> v.Type == parser.ConstType_ConstInt || v.Type == parser.ConstType_ConstIdentifier
+
+//@ func (r *Resolver) onDouble(g *Scope, name string, t *parser.Type, v *parser.ConstValue) (string, error)
+//@   requires t != nil && cvOK(v) && resOK(r, g, v)
+//@   ensures result1 == nil ==> v.Type == parser.ConstType_ConstInt || v.Type == parser.ConstType_ConstDouble || v.Type == parser.ConstType_ConstIdentifier
+
+//@ func (r *Resolver) onStrBin(g *Scope, name string, t *parser.Type, v *parser.ConstValue) (res string, err error)
+//@   requires t != nil && cvOK(v) && resOK(r, g, v)
+//@   ensures err == nil ==> v.Type == parser.ConstType_ConstLiteral || (v.Type == parser.ConstType_ConstIdentifier && cvId(v) != "true" && cvId(v) != "false")
+
+//@ func (r *Resolver) onEnum(g *Scope, name string, t *parser.Type, v *parser.ConstValue) (string, error)
+//@   requires t != nil && cvOK(v) && resOK(r, g, v)
+//@   ensures result1 == nil ==> v.Type == parser.ConstType_ConstInt || v.Type == parser.ConstType_ConstIdentifier
+
+// Containers and struct literals: not under contract yet (loops over nested values, typedef dereference through scopes):
+// assumed to return a string or an error and to change nothing the resolver reads.
+//@ func (r *Resolver) onSetOrList(g *Scope, name string, t *parser.Type, v *parser.ConstValue) (string, error)
+//@   trusted
+//@ func (r *Resolver) onMap(g *Scope, name string, t *parser.Type, v *parser.ConstValue) (string, error)
+//@   trusted
+//@ func (r *Resolver) onStructLike(g *Scope, name string, t *parser.Type, v *parser.ConstValue) (string, error)
+//@   trusted
+
+// resolveConst: a scalar target type accepts only the value kinds it can hold; a category that is not a data type is an
+// error.
+//@ pure func isIntCat(c parser.Category) bool { return c == parser.Category_Byte || c == parser.Category_I16 || c == parser.Category_I32 || c == parser.Category_I64 }
+//@ func (r *Resolver) resolveConst(g *Scope, name string, t *parser.Type, v *parser.ConstValue) (string, error)
+//@   requires t != nil && cvOK(v) && resOK(r, g, v)
+//@   ensures result1 == nil && t.Category == parser.Category_Bool ==> v.Type == parser.ConstType_ConstInt || v.Type == parser.ConstType_ConstDouble || v.Type == parser.ConstType_ConstIdentifier
+//@   ensures result1 == nil && isIntCat(t.Category) ==> v.Type == parser.ConstType_ConstInt || v.Type == parser.ConstType_ConstIdentifier
+//@   ensures result1 == nil && t.Category == parser.Category_Double ==> v.Type == parser.ConstType_ConstInt || v.Type == parser.ConstType_ConstDouble || v.Type == parser.ConstType_ConstIdentifier
+//@   ensures result1 == nil && (t.Category == parser.Category_String || t.Category == parser.Category_Binary) ==> v.Type == parser.ConstType_ConstLiteral || (v.Type == parser.ConstType_ConstIdentifier && cvId(v) != "true" && cvId(v) != "false")
+//@   ensures result1 == nil && t.Category == parser.Category_Enum ==> v.Type == parser.ConstType_ConstInt || v.Type == parser.ConstType_ConstIdentifier
+//@   ensures result1 == nil ==> parser.Category_Bool <= t.Category && t.Category <= parser.Category_Exception && t.Category != parser.Category_Typedef
